@@ -181,6 +181,157 @@ func keySwitchCases(fi *FuncInfo, owner string) ([]keyCase, bool, *ast.RangeStmt
 		})
 		return true
 	})
+	if len(out) == 0 {
+		out, hasDefault, loop = keyTableCases(fi, owner)
+	}
+	return out, hasDefault, loop
+}
+
+// keyTableCases: the table-driven spelling of the key switch - a map literal
+// from key to the address of the field it configures, looked up with the range
+// key inside the loop over the decoded object, the found address handed to one
+// shared Unmarshal call; a failed lookup is the "default".
+func keyTableCases(fi *FuncInfo, owner string) ([]keyCase, bool, *ast.RangeStmt) {
+	info := fi.Pkg.TypesInfo
+	var out []keyCase
+	hasDefault := false
+	var loop *ast.RangeStmt
+	type table struct {
+		holder types.Object
+		lit    *ast.CompositeLit
+	}
+	var tables []table
+	collect := func(n ast.Node) bool {
+		switch y := n.(type) {
+		case *ast.AssignStmt:
+			if len(y.Lhs) == 1 && len(y.Rhs) == 1 {
+				if cl, ok := ast.Unparen(y.Rhs[0]).(*ast.CompositeLit); ok {
+					tables = append(tables, table{objOf(info, y.Lhs[0]), cl})
+				}
+			}
+		case *ast.ValueSpec:
+			if len(y.Names) == 1 && len(y.Values) == 1 {
+				if cl, ok := ast.Unparen(y.Values[0]).(*ast.CompositeLit); ok {
+					tables = append(tables, table{info.Defs[y.Names[0]], cl})
+				}
+			}
+		}
+		return true
+	}
+	ast.Inspect(fi.Decl.Body, collect)
+	// package-level tables
+	for _, file := range fi.Pkg.Syntax {
+		for _, d := range file.Decls {
+			if gd, ok := d.(*ast.GenDecl); ok && gd.Tok == token.VAR {
+				for _, sp := range gd.Specs {
+					collect(sp)
+				}
+			}
+		}
+	}
+	// the field an entry's value designates: `&x.F`, or an accessor `func(x *T) any { return &x.F }`
+	fieldOf := func(v ast.Expr) *types.Var {
+		v = ast.Unparen(v)
+		if fl, ok := v.(*ast.FuncLit); ok {
+			if len(fl.Body.List) != 1 {
+				return nil
+			}
+			rs, ok := fl.Body.List[0].(*ast.ReturnStmt)
+			if !ok || len(rs.Results) != 1 {
+				return nil
+			}
+			v = ast.Unparen(rs.Results[0])
+		}
+		u, ok := v.(*ast.UnaryExpr)
+		if !ok || u.Op != token.AND {
+			return nil
+		}
+		fs, ok := asFieldSel(info, u.X)
+		if !ok || fs.Owner != owner {
+			return nil
+		}
+		return fs.Field
+	}
+	for _, t := range tables {
+		if loop != nil || t.holder == nil {
+			continue
+		}
+		if _, isMap := info.TypeOf(t.lit).Underlying().(*types.Map); !isMap {
+			continue
+		}
+		var cand []keyCase
+		okAll := true
+		for _, el := range t.lit.Elts {
+			kv, ok := el.(*ast.KeyValueExpr)
+			if !ok {
+				okAll = false
+				break
+			}
+			tv, ok := info.Types[kv.Key]
+			fld := fieldOf(kv.Value)
+			if !ok || tv.Value == nil || tv.Value.Kind() != constant.String || fld == nil {
+				okAll = false
+				break
+			}
+			cand = append(cand, keyCase{constant.StringVal(tv.Value), fld, kv.Pos(), nil})
+		}
+		if !okAll || len(cand) < 3 {
+			continue
+		}
+		// the loop that looks the range key up in the table and decodes into what it finds
+		ast.Inspect(fi.Decl.Body, func(m ast.Node) bool {
+			rs, ok := m.(*ast.RangeStmt)
+			if !ok || rs.Key == nil || loop != nil {
+				return true
+			}
+			keyObj := objOf(info, rs.Key)
+			if keyObj == nil {
+				return true
+			}
+			ast.Inspect(rs.Body, func(q ast.Node) bool {
+				as, ok := q.(*ast.AssignStmt)
+				if !ok || len(as.Rhs) != 1 {
+					return true
+				}
+				ix, ok := ast.Unparen(as.Rhs[0]).(*ast.IndexExpr)
+				if !ok || objOf(info, ix.X) != t.holder || objOf(info, ix.Index) != keyObj {
+					return true
+				}
+				dst := objOf(info, as.Lhs[0])
+				decoded := false
+				ast.Inspect(rs.Body, func(x ast.Node) bool {
+					call, ok := x.(*ast.CallExpr)
+					if !ok || len(call.Args) < 2 || dst == nil {
+						return true
+					}
+					target := ast.Unparen(call.Args[1])
+					if c2, isCall := target.(*ast.CallExpr); isCall { // accessor form: Unmarshal(v, member(x))
+						target = ast.Unparen(c2.Fun)
+					}
+					if objOf(info, target) != dst {
+						return true
+					}
+					nm := calleeVarName(info, call)
+					if f := callee(info, call); f != nil {
+						nm = f.Name()
+					}
+					if strings.Contains(nm, "Unmarshal") {
+						decoded = true
+					}
+					return true
+				})
+				if decoded {
+					loop = rs
+					hasDefault = len(as.Lhs) == 2 // comma-ok: a failed lookup can be told apart
+				}
+				return true
+			})
+			return true
+		})
+		if loop != nil {
+			out = cand
+		}
+	}
 	return out, hasDefault, loop
 }
 
